@@ -230,14 +230,14 @@ func (r *Reader) GetObject(objNum int) (core.Object, error) {
 
 // getUncompressedObject reads an object directly from the file
 func (r *Reader) getUncompressedObject(objNum int, entry *core.XRefEntry) (core.Object, error) {
-	// Seek to object position
-	_, err := r.file.Seek(entry.Offset, io.SeekStart)
-	if err != nil {
-		return nil, fmt.Errorf("failed to seek to object %d: %w", objNum, err)
+	if entry.Offset < 0 || entry.Offset > r.fileSize {
+		return nil, fmt.Errorf("failed to seek to object %d: offset %d outside the file", objNum, entry.Offset)
 	}
 
-	// Parse the indirect object
-	parser := core.NewParser(r.file)
+	// Parse the indirect object through positioned reads of its own: parsing may re-enter
+	// GetObject (a stream whose /Length is an indirect reference), and a shared file offset
+	// moved by the nested lookup would make this parser's buffered reader continue elsewhere.
+	parser := core.NewParser(io.NewSectionReader(r.file, entry.Offset, r.fileSize-entry.Offset))
 	parser.SetReferenceResolver(r)
 	indObj, err := parser.ParseIndirectObject()
 	if err != nil {
